@@ -3,6 +3,7 @@
    Proofs/SbomProofs.v and followed by Print Assumptions.  The identifier
    alphabet is the regular expression goextract read from spdx.go on this run
    (Generated.Regexes.valid_id_chars_re). *)
+From Coq Require Import Permutation.
 From Apko Require Import Base.Prelude Base.Regex Generated.Regexes Model.Sbom Spec.SbomSpec Proofs.SbomProofs.
 Open Scope string_scope. Open Scope list_scope.
 
@@ -60,8 +61,8 @@ Print Assumptions c11_refs_resolve.
    the imported element, replacePackage(id, id) deletes it, references dangle
    (finding C11-F2; the witness is replayed on the real code by the harness
    corpus, class corpus/replace-self).
-   MISSING from the partial above: documents with embedded SBOMs whose target ids
-   do not yet occur in the document (stated in notes/C11.md, not proved). *)
+   MISSING from the partial above: documents with embedded SBOMs; the per-apk step
+   is proved below (c11_refs_resolve_embedded_step_partial). *)
 Theorem c11_replace_self_refuted : exists g d,
   (forall k e, In (k, FDoc e) (g_fs g) -> RefsResolve e /\ IdsUnique e /\ Forall ValidId (ids e)) /\
   (forall a, In a (g_apks g) -> forall e, locate (g_fs g) (candidates (a_name a) (a_version a)) = Some (FDoc e) ->
@@ -70,6 +71,28 @@ Theorem c11_replace_self_refuted : exists g d,
   In (p_id bar_elem) (List.map r_related (d_rels d)) /\ ~ In (p_id bar_elem) (ids d).
 Proof. exact replace_self_refuted. Qed.
 Print Assumptions c11_replace_self_refuted.
+
+(* the strongest statement proved WITH embedded SBOMs: one apk's
+   ProcessInternalApkSBOM step keeps every reference resolved when the embedded
+   document yields at most one target, that target is not yet an id of the
+   document ("ids disjoint from the document's"), and the document already holds
+   an element with the apk's name (Generate has just appended it) — for every
+   embedded relationship graph (chains, cycles, File- relationships) and every
+   map order.  The closure computed by copySBOMElements is closed under the
+   copied relationships and every id in it has a package, or Generate fails.
+   MISSING: the induction over the apk list that lifts this step to Generate
+   under a static disjointness hypothesis (see notes/C11.md). *)
+Theorem c11_refs_resolve_embedded_step_partial : forall perm fs d pname pversion e d',
+  RefsResolve d -> (List.length (d_desc d) <= 1)%nat ->
+  locate fs (candidates pname pversion) = Some (FDoc e) ->
+  (List.length (targets pname e) <= 1)%nat ->
+  (forall l, Permutation (perm l) l) ->
+  (forall t, In t (targets pname e) -> ~ In t (ids d)) ->
+  (exists p, In p (d_pkgs d) /\ p_name p = pname) ->
+  process_internal perm fs d pname pversion = Ok d' ->
+  RefsResolve d' /\ List.length (d_desc d') = List.length (d_desc d).
+Proof. exact process_internal_refs. Qed.
+Print Assumptions c11_refs_resolve_embedded_step_partial.
 
 (* without embedded SBOMs, and provided no two of the identifiers Generate mints
    (image, layers, source, one per installed "name-version") coincide, the
